@@ -171,3 +171,42 @@ fn k_bc3_image_6x5() { image_contract::<6, 5, 4, 16, 30, 64>(decode_bc3, decode_
 #[kani::proof]
 #[kani::unwind(17)]
 fn k_bc5_image_5x2() { image_contract::<5, 2, 2, 16, 10, 32>(decode_bc5, decode_bc5_block); }
+
+//@unit props=C13 label=P tier=quick fn=bcn::bc1::decode_bc1_block,bcn::bc3::decode_bc3_block
+//@desc discharges the block-decoder contracts assumed by the Verus unit bcn_image: the 16 output words are a function of the first 8 (BC1) / 16 (BC3) data bytes only - trailing data and the previous buffer contents do not matter; no panic for data of at least that length
+#[kani::proof]
+#[kani::unwind(17)]
+fn k_bcn_block_frame_bc1_bc3() {
+    let data: [u8; 20] = kani::any();
+    let px: usize = kani::any();
+    kani::assume(px < 16);
+    let mut o1: [u32; 16] = kani::any();
+    let mut o2: [u32; 16] = kani::any();
+    decode_bc1_block(&data, &mut o1);
+    decode_bc1_block(&data[..8], &mut o2);
+    assert!(o1[px] == o2[px], "BC1 block: function of the first 8 bytes only");
+    let mut o3: [u32; 16] = kani::any();
+    let mut o4: [u32; 16] = kani::any();
+    decode_bc3_block(&data, &mut o3);
+    decode_bc3_block(&data[..16], &mut o4);
+    assert!(o3[px] == o4[px], "BC3 block: function of the first 16 bytes only");
+    kani::cover!(true, "reachable");
+}
+
+//@unit props=C13 label=P tier=quick fn=bcn::bc5::decode_bc5_block
+//@desc discharges the BC5 contract assumed by the Verus unit bcn_image: new word = (old word & 0xFF0000FF) | f(first 16 data bytes) with f confined to the red/green lanes; trailing data does not matter
+#[kani::proof]
+#[kani::unwind(17)]
+fn k_bcn_block_frame_bc5() {
+    let data: [u8; 20] = kani::any();
+    let px: usize = kani::any();
+    kani::assume(px < 16);
+    let old1: [u32; 16] = kani::any();
+    let old2: [u32; 16] = kani::any();
+    let (mut o1, mut o2) = (old1, old2);
+    decode_bc5_block(&data, &mut o1);
+    decode_bc5_block(&data[..16], &mut o2);
+    assert!(o1[px] & 0xFF00_00FF == old1[px] & 0xFF00_00FF && o2[px] & 0xFF00_00FF == old2[px] & 0xFF00_00FF, "blue and alpha lanes keep the previous buffer value");
+    assert!(o1[px] & 0x00FF_FF00 == o2[px] & 0x00FF_FF00, "red/green lanes: function of the first 16 bytes only");
+    kani::cover!(true, "reachable");
+}
